@@ -316,6 +316,8 @@ pub struct Env<'m, B: Backend> {
     pub scratch_query: Option<usize>,
     /// extra scalar outputs (e.g. bytes consumed from a Source)
     pub aux: Vec<u64>,
+    /// coefficient-domain sources of transform-domain inputs: label -> [col][limb][coeff]
+    pub srcs: Vec<(&'static str, Vec<Vec<Vec<i64>>>)>,
 }
 
 impl<'m, B: Backend> Env<'m, B> {
@@ -330,17 +332,18 @@ impl<'m, B: Backend> Env<'m, B> {
             coeff_out: None,
             scratch_query: None,
             aux: vec![],
+            srcs: vec![],
         }
     }
 
-    fn next_seed(&mut self, depends_on_fill: bool) -> u64 {
+    pub fn next_seed(&mut self, depends_on_fill: bool) -> u64 {
         self.counter += 1;
         let base = pzv_common::driver::mix(self.case_seed, self.counter);
         if depends_on_fill { pzv_common::driver::mix(base, 0xF111 + self.fill) } else { base }
     }
 
     #[allow(clippy::too_many_arguments)]
-    fn mk(&mut self, label: &'static str, kind: Kind, n: usize, cols: usize, size: usize, slack: usize, sb: usize, rows: usize, cols_out: usize) -> Slot {
+    pub fn mk(&mut self, label: &'static str, kind: Kind, n: usize, cols: usize, size: usize, slack: usize, sb: usize, rows: usize, cols_out: usize) -> Slot {
         let max_size = size + slack;
         let polys = match kind {
             Kind::Scalar | Kind::Svp => cols,
@@ -521,6 +524,15 @@ impl<'m, B: Backend> Env<'m, B> {
         s
     }
 
+    /// roomy scratch for auxiliary library calls that are not the operation under audit
+    pub fn aux_scratch(&mut self, query: usize) -> Slot {
+        let len = query + 4096;
+        let mut s = self.mk("aux_scratch", Kind::Scratch, len, 1, 1, 0, 1, 1, 1);
+        let seed = self.next_seed(true);
+        s.buf.fill_garbage(seed);
+        s
+    }
+
     pub fn push(&mut self, s: Slot) {
         self.slots.push(s);
     }
@@ -528,6 +540,7 @@ impl<'m, B: Backend> Env<'m, B> {
 
 /// What a registry call left behind.
 pub struct Outcome {
+    pub srcs: Vec<(&'static str, Vec<Vec<Vec<i64>>>)>,
     pub slots: Vec<SlotRec>,
     pub coeff_out: Option<Vec<Vec<i128>>>,
     pub scratch_query: Option<usize>,
@@ -648,6 +661,7 @@ impl<'m, B: Backend> Env<'m, B> {
             })
             .collect();
         Outcome {
+            srcs: self.srcs,
             slots,
             coeff_out: self.coeff_out,
             scratch_query: self.scratch_query,
@@ -659,6 +673,9 @@ impl<'m, B: Backend> Env<'m, B> {
 impl Outcome {
     pub fn slot(&self, label: &str) -> &SlotRec {
         self.slots.iter().find(|s| s.label == label).unwrap_or_else(|| panic!("harness: no slot {label}"))
+    }
+    pub fn src(&self, label: &str) -> &Vec<Vec<Vec<i64>>> {
+        &self.srcs.iter().find(|s| s.0 == label).unwrap_or_else(|| panic!("harness: no source {label}")).1
     }
     pub fn try_slot(&self, label: &str) -> Option<&SlotRec> {
         self.slots.iter().find(|s| s.label == label)
